@@ -867,7 +867,7 @@ class VM:
             compiled_func = self.stack.pop()
             if isinstance(compiled_func, CompiledFunction):
                 js_func = JSFunction(
-                    name=compiled_func.name,
+                    name=compiled_func.name or compiled_func.inferred_name,
                     params=compiled_func.params,
                     bytecode=compiled_func.bytecode,
                 )
